@@ -32,7 +32,8 @@ at least the length of the text gives the same result (`splitLine_fuel`); `Lex.t
    matches of its pieces, whatever the separators).
 5. `C16_comment_cut`, `C16_no_comment_no_cut`, `C16_comment_after_ws`, `C16_comment_line`.
 6. `C16_abbrev_same`, `C16_abbrev_same_in_line`.
-7. `C16_peephole_pushq_pop`, `C16_peephole_push_pop`, `C16_push_none_faults` (VM).
+7. `C16_peephole_pushq_pop`, `C16_peephole_push_pop`, `C16_push_none_faults`, `C16_negate_int`,
+   `C16_negate_num` (VM).
 
 Not covered here (correspondence/tests only): the `String`-level `Lex.tokens` (splitting the
 text at `\n`), the parser's optional brackets/braces, and white space other than the six
@@ -797,5 +798,23 @@ example :
   (C16_peephole_push_pop _ _ _ 1 (.reg .hue) (.var "x") rfl rfl
     (CodeAt.intro [.nop] _ [.stop] []) (CodeAt.intro [.nop] _ [.stop] [])
     (fun _ => by simp [State.read, Vm.init, initRegs])).1
+
+/-- `{-n}` against `-n`: the parser writes a signed literal as ONE constant (`MOVEQ -n d`) and a
+braced one as a product (`PUSHQ n; PUSHQ -1; OP mul; POP d`).  The multiplication leaves exactly
+the negated literal on the evaluation stack — for an integer and for a float literal — so with
+`C16_peephole_pushq_pop` the two programs store the same value (third peephole equivalence of
+`harness/c16.py`). -/
+theorem C16_negate_int (s : State) (n : Int) (rest : List Val) :
+    ({ s with eval := .int (-1) :: .int n :: rest } : State).doOp .mul
+      = { s with eval := .int (-n) :: rest } := by
+  have h : ((n : Rat) * -1).num = -n := by
+    rw [Rat.mul_neg, Rat.mul_one]; simp
+  simp [State.doOp, binOp, Val.mul, Val.asNum, Val.mkNum, h]
+
+theorem C16_negate_num (s : State) (q : Rat) (rest : List Val) :
+    ({ s with eval := .int (-1) :: .num q :: rest } : State).doOp .mul
+      = { s with eval := .num (-q) :: rest } := by
+  have h : q * -1 = -q := by rw [Rat.mul_neg, Rat.mul_one]
+  simp [State.doOp, binOp, Val.mul, Val.asNum, Val.mkNum, h]
 
 end Bardolph
